@@ -85,7 +85,7 @@ check("C08", "exploration",
       "Operation histories (reads in all modes, abandoned / unclosed / never started reads, validate with limit 0, writes with "
       "and without close) are executed on one Cid object; the recorded outcome of the last operation of every history - items, "
       "rejections with row numbers, end-of-data result, written text, counters - must equal the recorded outcome of the same "
-      "operation on a freshly loaded Cid. All histories up to length 2 (quick) / 3 (thorough) over 45 operations x 4 CIDs are "
+      "operation on a freshly loaded Cid. All histories up to length 2 (quick) / 3 (thorough) over 51 operations x 4 CIDs are "
       "enumerated, longer ones sampled.",
       "The reference is the implementation itself with fresh state (history + model where model = fresh execution).",
       "recorded operation histories compared with fresh-state executions of the same operation", "DESIGN.md 5/C08")
